@@ -136,6 +136,16 @@ CHECKS = {
              "and the type handed to the next layer), and that 2^analyze_accumulator >= the observed output "
              "magnitude; the type rules themselves are model-checked in MC_QTypes.",
         design="7 C18", note="auto-po2 adjusted accumulator entries are not yet exercised"),
+    "C11": dict(
+        spec="QLayer.tla + MC_QLayer + Trace_QLayer",
+        text="QLayer.tla defines dense, conv1d/2d (stride, same/valid/causal, dilation), depthwise, separable and "
+             "average-pooling layers executably on integer tensors and the order of quantizer applications; TLC pins "
+             "those definitions with sanity theorems on all tiny tensors. Real layers are called with recording proxy "
+             "quantizers and integer-coded dyadic data; TLC recomputes every call exactly (output = op on the recorded "
+             "quantized weights + quantized bias, handed to the activation quantizer), checks the application order "
+             "and get_quantizers(), and takes the bitwise comparison with the stock Keras layer (incl. RNN/LSTM/GRU "
+             "and layers without quantizers) as a recorded flag.",
+        design="7 C11"),
 }
 
 
